@@ -11,7 +11,7 @@ L4 partial operations have their precondition (tier stored lists; private free l
 import ast
 
 from ..index import AnalysisError, is_spawn, walk_no_nested
-from ..norm import Canon, Lit, Logic, effects_of_event
+from ..norm import Canon, Lit, Logic, effects_of_event, path_effects, effects_along
 from ..paths import Frame, bind_args, cached_paths, contains_yield
 from ..skel import outcomes
 from .common import (call_name, enclosing_loops, iteration_segments, path_must, reaching_value,
@@ -70,8 +70,8 @@ def l1(repo, res, canon, logic):
     flagged = set()
     for o in outs:
         acq = []
-        for e in o.path.events:
-            for ef in effects_of_event(canon, e):
+        for e, _efs in effects_along(canon, o.path.events):
+            for ef in _efs:
                 if ef.loc == COUNTER and ef.kind.startswith('aug'):
                     acq.append(ef)
                 elif ef.loc == COUNTER:
@@ -149,7 +149,7 @@ def l1(repo, res, canon, logic):
         for p in rpaths:
             if p.exit in ('raise', 'cycle'):
                 continue
-            rel = [ef for e in p.events for ef in effects_of_event(canon, e)
+            rel = [ef for ef in path_effects(canon, p.events)
                    if ef.loc == COUNTER and ef.kind == 'aug-']
             if len(rel) != 1:
                 rel_ok = False
